@@ -43,6 +43,19 @@ func (r *vIRunner) Run() error {
 	return nil
 }
 
+// a runner that is also marked lazy: nothing but the App's runner list refers to it
+type vILazyRunner struct {
+	name string
+	log  *vILog
+}
+
+func (r *vILazyRunner) Naming() string { return r.name }
+func (r *vILazyRunner) LazyInit()      {}
+func (r *vILazyRunner) Run() error {
+	r.log.ev = append(r.log.ev, "run:"+r.name)
+	return nil
+}
+
 // stateless (zero-sized) runners: real Go may give all of them one address
 type vIZRun1 struct{}
 type vIZRun2 struct{}
@@ -71,6 +84,11 @@ func VerifAppIntegration() {
 	}
 	nr := nd.Param("R", 1)
 	for i := 0; i < nr; i++ {
+		if i == nr-1 && nd.Bool() {
+			nd.Cover("lazy runner")
+			comps = append(comps, &vILazyRunner{name: []string{"zr", "ar"}[i], log: log})
+			continue
+		}
 		comps = append(comps, &vIRunner{name: []string{"zr", "ar"}[i], log: log})
 	}
 	stateless := nd.Bool()
